@@ -1037,6 +1037,8 @@ class eigenbasis_of(basis_context_manager):
     def __init__(self, operator):
         super().__init__()
         self.op = operator
+        # the operator of the enclosing context (if any) is restored on exit
+        self.op_outer = self.manager.current_basis_operator
         self.manager.store_current_basis_operator(self.op)
         
         
@@ -1103,7 +1105,7 @@ class eigenbasis_of(basis_context_manager):
                 if op not in ops_above:
                     self.manager.register_with_basis(nb,op)
             
-        self.manager.remove_current_basis_operator()
+        self.manager.store_current_basis_operator(self.op_outer)
             
         del self.manager.basis_registered[bb]
 
